@@ -28,6 +28,9 @@ type C05Case struct {
 	Mode     string     `json:"mode"`
 	Encoded  string     `json:"encoded"`
 	Boundary bool       `json:"boundary"`
+	// Cond: what else the first assertion's Conditions hold — the window decision must not depend on it:
+	// "" nothing, "foreign-aud", "match+foreign", "foreign+match", "otu+proxy", "all"
+	Cond string `json:"cond,omitempty"`
 }
 
 var deltaGrid = []int64{-int64(time.Hour), -int64(time.Second), -1, 0, 1, int64(time.Second), int64(time.Hour)}
@@ -97,6 +100,20 @@ func c05Issue(c *C05Case) *h.Genuine {
 		if i == 0 {
 			a.NotBefore, a.NotOnOrAfter = c.NB.opt(), c.CN.opt()
 			a.HasConditions = !c.NoCond
+			match, foreign := []string{c.SP.Audience}, []string{"https://someone-else.example.org/sp"}
+			switch c.Cond {
+			case "foreign-aud":
+				a.Audiences = [][]string{foreign}
+			case "match+foreign":
+				a.Audiences = [][]string{match, foreign}
+			case "foreign+match":
+				a.Audiences = [][]string{foreign, match}
+			case "otu+proxy":
+				a.OneTimeUse, a.HasProxy, a.ProxyCount, a.ProxyAudience = true, true, h.S("2"), foreign
+			case "all":
+				a.Audiences = [][]string{match, foreign, {}}
+				a.OneTimeUse, a.HasProxy, a.ProxyAudience = true, true, match
+			}
 		} else {
 			// later assertions carry Conditions that would flip the warning if they were read
 			a.NotBefore = h.S(c.SP.Now().Add(time.Hour).UTC().Format(time.RFC3339))
@@ -131,6 +148,7 @@ func genC05(t *rapid.T) C05Case {
 	c.NB = renderBound(t, now, genDelta(t, "nbDelta"), true, "nb")
 	c.CN = renderBound(t, now, genDelta(t, "cnDelta"), true, "cn")
 	c.NoCond = rapid.IntRange(0, 15).Draw(t, "noConditions") == 0
+	c.Cond = rapid.SampledFrom([]string{"", "", "foreign-aud", "match+foreign", "foreign+match", "otu+proxy", "all"}).Draw(t, "otherConditions")
 	finishC05(&c, func(err error) { t.Fatalf("harness: %v", err) })
 	return c
 }
@@ -286,7 +304,7 @@ func TestC05_Grid(t *testing.T) {
 	mk := func(mode string, sc []int64, nb, cn int64, variant int) {
 		sp := h.BaseSP()
 		sp.NowUnixNano += int64(variant) * 123456789 // sub-second clock too
-		c := C05Case{SP: sp, Mode: mode}
+		c := C05Case{SP: sp, Mode: mode, Cond: []string{"", "foreign-aud", "match+foreign", "otu+proxy", "foreign+match", "all", ""}[len(cases)%7]}
 		if mode == "skip" {
 			c.SP.Skip = true
 		}
